@@ -300,9 +300,16 @@ def check_callable(ctx: Ctx, fn: FuncInfo):
                   key=f'{rid}::{fn.short}::fresh-holder')
         ret = p.value
         ra = ret.single_atom() if isinstance(ret, RF) else None
-        ok_ret = isinstance(ra, tuple) and ra[0] == 'attr' and ra[2] == 'value' and \
-            ra[1] in (key_of(c.d['result']), key_of(a[1]) if len(a) > 1 else None)
-        ctx.check(ok_ret, rid, fn.short, fn.loc(), 'the callable returns the .value the objective stored',
+        # the value is read from the holder the objective *returned* (the library's convention in the global phase,
+        # R04.4): a problem may return another holder than the one it was handed
+        ok_ret = isinstance(ra, tuple) and ra[0] == 'attr' and ra[2] == 'value' and ra[1] == key_of(c.d['result'])
+        dropped = isinstance(ra, tuple) and ra[0] == 'attr' and ra[2] == 'value' and len(a) > 1 and \
+            ra[1] == key_of(a[1]) and not ok_ret
+        ctx.check(ok_ret, rid, fn.short, fn.loc(), 'the callable returns the .value of the holder the objective '
+                                                   'returned',
+                  (f'the callable discards the holder returned by the objective and reads the one it passed in '
+                   f'({C.fmt(ret)}): for a problem that returns a new holder the optimiser sees a constant and the '
+                   f'refined value is not the objective at the refined point') if dropped else
                   f'the callable returns {C.fmt(ret)}, not the value the objective stored',
                   key=f'{rid}::{fn.short}::returns-value')
     ctx.floor(rid, 'paths of the optimiser callable', n, 1)
